@@ -87,6 +87,36 @@ package bondmachine
 //@   ensures wf: wfBM(bmach)
 //@   assigns bmach.Links[bid]
 
+
+// The name of an endpoint as the tools print and accept it (i3, o0, p2i1, p2o0).
+//@ spec bondName(b Bond) string := b.Map_to == 0 ? cat("i", itoa(b.Res_id)) : (b.Map_to == 1 ? cat("o", itoa(b.Res_id)) :
+//@        (b.Map_to == 2 ? cat(cat(cat("p", itoa(b.Res_id)), "i"), itoa(b.Ext_id)) :
+//@        (b.Map_to == 3 ? cat(cat(cat("p", itoa(b.Res_id)), "o"), itoa(b.Ext_id)) : "")))
+
+//@ func (b Bond) String() string
+//@   ensures name: result == bondName(b)
+//@   pure
+
+// Add_bond writes at most one link slot: the one of the internal input named by one endpoint, which afterwards
+// points at the internal output named by the other endpoint. Every other bond is untouched.
+//@ func (bmach *Bondmachine) Add_bond(endpoints []string)
+//@   requires wfBM(bmach) && len(endpoints) >= 2
+//@   ensures wf: wfBM(bmach)
+//@   ensures addressed: forall k int :: 0 <= k && k < len(bmach.Links) && bmach.Links[k] != old(bmach.Links[k]) ==>
+//@             0 <= bmach.Links[k] && bmach.Links[k] < len(bmach.Internal_outputs) &&
+//@             ((bondName(bmach.Internal_inputs[k]) == endpoints[0] && bondName(bmach.Internal_outputs[bmach.Links[k]]) == endpoints[1]) ||
+//@              (bondName(bmach.Internal_inputs[k]) == endpoints[1] && bondName(bmach.Internal_outputs[bmach.Links[k]]) == endpoints[0]))
+//@   ensures one: forall k int, l int :: 0 <= k && k < len(bmach.Links) && 0 <= l && l < len(bmach.Links) &&
+//@             bmach.Links[k] != old(bmach.Links[k]) && bmach.Links[l] != old(bmach.Links[l]) ==> k == l
+//@   ensures first: forall k int, l int :: 0 <= l && l < k && k < len(bmach.Links) && bmach.Links[k] != old(bmach.Links[k]) ==>
+//@             bondName(bmach.Internal_inputs[l]) != endpoints[0] && bondName(bmach.Internal_inputs[l]) != endpoints[1]
+//@   ensures shape: len(bmach.Links) == old(len(bmach.Links))
+//@   assigns bmach.Links[*]
+//@   loop 1: modifies nothing
+//@   loop 1: invariant unmatched: forall l int :: 0 <= l && l < $i ==> bondName(bmach.Internal_inputs[l]) != endpoints[0] && bondName(bmach.Internal_inputs[l]) != endpoints[1]
+//@   loop 2: modifies nothing
+//@   loop 3: modifies nothing
+
 //@ func (bmach *Bondmachine) Add_input() (string, error)
 //@   requires wfBM(bmach) && bmach.Inputs < pow2(62)
 //@   ensures ok: result1 == nil && bmach.Inputs == old(bmach.Inputs) + 1
